@@ -570,33 +570,46 @@ func init() {
 
 	// ---- ghost state attached to memory locations ----
 	V["GhostSet"] = func(c *Ctx, st *State, a []Value, site ssa.Instruction) Value {
-		st.ghost[ghostKey(a[0], a[1].(string))] = a[2]
+		p := ghostPtr(a[0])
+		sv, ok := st.load(p).(*StructV)
+		if !ok {
+			fail("GhostSet on a non-struct location")
+		}
+		n := &StructV{F: sv.F, G: map[string]Value{}}
+		for k, v := range sv.G {
+			n.G[k] = v
+		}
+		n.G[a[1].(string)] = a[2]
+		storeKeepGhost(st, p, n)
 		return nil
 	}
 	V["GhostGet"] = func(c *Ctx, st *State, a []Value, site ssa.Instruction) Value {
-		k := ghostKey(a[0], a[1].(string))
-		v, ok := st.ghost[k]
+		p := ghostPtr(a[0])
+		sv, ok := st.load(p).(*StructV)
 		if !ok {
-			// an unconstrained ghost value, created on first use
-			v = c.newInput("ghost:"+k, IntSort)
-			st.ghost[k] = v
+			fail("GhostGet on a non-struct location")
 		}
+		attr := a[1].(string)
+		if v, ok := sv.G[attr]; ok {
+			return v
+		}
+		// unconstrained ghost value, created on first use and remembered
+		v := Var(c.freshName("ghost_"+attr), IntSort)
+		n := &StructV{F: sv.F, G: map[string]Value{}}
+		for k, x := range sv.G {
+			n.G[k] = x
+		}
+		n.G[attr] = v
+		storeKeepGhost(st, p, n)
 		return v
 	}
 	V["GhostHas"] = func(c *Ctx, st *State, a []Value, site ssa.Instruction) Value {
-		_, ok := st.ghost[ghostKey(a[0], a[1].(string))]
-		return BoolC(ok)
-	}
-	V["GhostCopy"] = func(c *Ctx, st *State, a []Value, site ssa.Instruction) Value {
-		// GhostCopy(dst, src): copy all ghost attributes attached to src (and below) onto dst
-		src := ghostBase(a[1])
-		dst := ghostBase(a[0])
-		for k, v := range st.ghost {
-			if strings.HasPrefix(k, src+"/") || strings.HasPrefix(k, src+".") {
-				st.ghost[dst+k[len(src):]] = v
-			}
+		sv, ok := st.load(ghostPtr(a[0])).(*StructV)
+		if !ok {
+			return FalseT
 		}
-		return nil
+		_, has := sv.G[a[1].(string)]
+		return BoolC(has)
 	}
 	V["IsConcrete"] = func(c *Ctx, st *State, a []Value, site ssa.Instruction) Value {
 		t, ok := a[0].(IfaceV).V.(*Term)
@@ -611,29 +624,54 @@ func init() {
 	}
 }
 
-func ghostBase(v Value) string {
+func ghostPtr(v Value) Pointer {
 	if iv, ok := v.(IfaceV); ok {
 		v = iv.V
 	}
 	p, ok := v.(Pointer)
-	if !ok {
+	if !ok || p.Obj == nil {
 		fail("ghost attribute on %T", v)
 	}
-	if p.Obj == nil {
-		return "nil"
+	return p
+}
+
+// storeKeepGhost replaces the struct at p without invalidating ghost attributes of enclosing structs.
+func storeKeepGhost(st *State, p Pointer, n *StructV) {
+	root := st.mem[p.Obj]
+	st.mem[p.Obj] = setPathG(root, p.Path, n)
+}
+
+func setPathG(v Value, path []PathElem, nv Value) Value {
+	if len(path) == 0 {
+		return nv
 	}
-	var sb strings.Builder
-	fmt.Fprintf(&sb, "o%d", p.Obj.id)
-	for _, e := range p.Path {
+	e := path[0]
+	switch x := v.(type) {
+	case *StructV:
+		r := &StructV{F: append([]Value(nil), x.F...), G: x.G}
+		r.F[e.Idx] = setPathG(x.F[e.Idx], path[1:], nv)
+		return r
+	case *ArrayV:
 		if e.Sym != nil {
 			fail("ghost attribute through symbolic index")
 		}
-		fmt.Fprintf(&sb, ".%d", e.Idx)
+		r := &ArrayV{E: append([]Value(nil), x.E...)}
+		r.E[e.Idx] = setPathG(x.E[e.Idx], path[1:], nv)
+		return r
 	}
-	return sb.String()
+	fail("setPathG: cannot descend into %T", v)
+	return nil
 }
 
-func ghostKey(v Value, attr string) string { return ghostBase(v) + "/" + attr }
+func ghostKey(v Value, attr string) string {
+	p := ghostPtr(v)
+	var sb strings.Builder
+	fmt.Fprintf(&sb, "o%d", p.Obj.id)
+	for _, e := range p.Path {
+		fmt.Fprintf(&sb, ".%d", e.Idx)
+	}
+	return sb.String() + "/" + attr
+}
 
 func (c *Ctx) topContract() *contractFrame {
 	if len(c.curContract) == 0 {
